@@ -26,14 +26,14 @@ theorem autodiscover_unencrypted_is_safe (supported : Bytes) (t : AuthType)
 /-- the unencrypted preference list of the source, as a fact -/
 theorem unencrypted_preferences : Generated.preferUnencrypted = ["SCRAM-SHA-256", "SCRAM-SHA-1", "CRAM-MD5"] := by decide
 
-/-- PLAIN refuses to start on a connection that is not TLS, unless the server is localhost or the caller
-    chose PLAIN-NOENC: no response (which would carry the password) is produced. -/
 /-- Fact regenerated from smtp/auth.go: "a localhost server" is decided by comparing the configured
     server name with exactly these three strings (the function body is one `==` / `||` chain over its
     parameter): no prefix, suffix or address-range test that a remote name could satisfy. -/
 theorem localhost_is_exactly_three_names :
     Generated.localhostIsEqChain = true ∧ Generated.localhostNames = ["localhost", "127.0.0.1", "::1"] := by decide
 
+/-- PLAIN refuses to start on a connection that is not TLS, unless the server is localhost or the caller
+    chose PLAIN-NOENC: no response (which would carry the password) is produced. -/
 theorem plain_refuses_cleartext (identity user pass host name : Bytes) (auth : List Bytes)
     (hl : isLocalhost name = false) :
     ((plainMech identity user pass host false).start () ⟨name, false, auth⟩).2 = .error errUnencrypted := by
